@@ -18,7 +18,7 @@ CONFIGS = [(m, t) for m in range(1, 8) for t in range(0, (m + 1) // 2) if 2 * t 
 
 
 def shards(tier, seed):
-    out = [{'name': f'm{m}t{t}', 'm': m, 't': t, 'seeds': 3 if tier == 'quick' else 20} for (m, t) in CONFIGS]
+    out = [{'name': f'm{m}t{t}', 'm': m, 't': t, 'seeds': 3 if tier == 'quick' else 150} for (m, t) in CONFIGS]
     out.append({'name': 'realnet', 'kind': 'realnet', 'cfgs': [[2, 0], [3, 1], [5, 2], [4, 1]] if tier == 'quick' else [list(c) for c in CONFIGS if c[0] > 1]})
     return out
 
